@@ -5,6 +5,7 @@ package main
 import (
 	"fmt"
 	"go/types"
+	"regexp"
 	"strings"
 )
 
@@ -47,3 +48,6 @@ func (c *Ctx) Root(pkg, suffix string) *RootInfo {
 	}
 	return nil
 }
+
+// holeRe matches the placeholder identifiers substituted for holes.
+var holeRe = regexp.MustCompile(`H[A-Za-z0-9]*_[0-9a-f]{4}`)
